@@ -28,7 +28,7 @@ for sid in ids:
     finally:
         subprocess.run(['git', '-C', REPO, 'checkout', '--', '.'])
     viol = re.findall(r'VIOLATION property=\S+ replay=\S+ obligation=(\S+) check=(.*)', p.stdout)
-    meta['detected_by'] = dict(detected = bool(viol), exit_code = p.returncode, command = 'bin/check %s --tier quick (with the patch applied to /repo)' % pid,
+    meta['detected_by'] = dict(detected = bool(viol), exit_code = p.returncode, command = 'bin/check %s --tier quick (with the patch applied to %s)' % (pid, 'a scratch worktree of /repo HEAD, the check pointed at it' if COPY else '/repo'),
                                obligations = sorted(set(o for o, _ in viol))[:12], checks_failed = sorted(set(c for _, c in viol))[:6], repo_head = subprocess.run(['git', '-C', '/repo', 'rev-parse', '--short', 'HEAD'], capture_output = True, text = True).stdout.strip())
     json.dump(meta, open(mp, 'w'), indent = 1)
     print(sid, 'DETECTED' if viol else 'missed', p.returncode, sorted(set(o for o, _ in viol))[:3], flush = True)
